@@ -349,8 +349,8 @@ Proof.
     destruct (reserve empty_root p count limit s) as [s' [[req pr] e]]. simpl in H. tauto.
   - pose proof (deliver_slot_ok p bs s Hs) as H.
     destruct (deliver derive p bs s) as [s' [a e]]. simpl in H. tauto.
-  - split; [|split]; auto.
-  - split; [|split]; auto.
+  - unfold cancel; simpl. split; [|split]; auto.
+  - unfold expire; simpl. split; [|split]; auto.
   - unfold revoke. destruct (pend_get p (pend s)); simpl; split; [|split]; auto.
   - pose proof (results_released s Hs) as H.
     destruct (results s) as [s' rs]. tauto.
